@@ -97,7 +97,7 @@ Definition playlist_m3u8 : bytes := [112; 108; 97; 121; 108; 105; 115; 116; 46; 
 Definition record_m3u8 : bytes := [114; 101; 99; 111; 114; 100; 46; 109; 51; 117; 56].
 
 (* GetRequestInfo on ParseUrl("http://host" ++ text): (streamName, fileName, fileType) *)
-Definition hls_request_info (text : bytes) : res (bytes * bytes * bytes) :=
+Definition hls_request_info_raw (text : bytes) : res (bytes * bytes * bytes) :=
   let (path, q) := split_first ch_q text in
   let query := match q with Some x => x | None => [] end in
   let* u := parse_url_path path query in
@@ -114,3 +114,15 @@ Definition hls_request_info (text : bytes) : res (bytes * bytes * bytes) :=
     else Ok (fwt, filename, ftype)
   else if bytes_eqb ftype ts_ext then Ok (stream_name_from_ts filename, filename, ftype)
   else Ok ([], filename, ftype).
+
+(* base.IsPlainPathElement: not ".." and no path separator (fix F-18: such a
+   stream name is not mapped; GetRequestInfo returns the zero RequestInfo) *)
+Definition is_plain_path_element (name : bytes) : bool :=
+  negb (bytes_eqb name [46; 46]) && negb (existsb (fun c => (c =? 47) || (c =? 92)) name).
+
+Definition hls_request_info (text : bytes) : res (bytes * bytes * bytes) :=
+  match hls_request_info_raw text with
+  | Ok (sn, filename, ftype) => if is_plain_path_element sn then Ok (sn, filename, ftype) else Ok ([], filename, ftype)
+  | Err e => Err e
+  | Panic x => Panic x
+  end.
